@@ -85,6 +85,7 @@ def run(prog, chk):
     retry_amplification(prog, chk)
     from props import C17
     C17.scope_var_limit(prog, chk)  # unbounded growth of scope variables is memory exhaustion (abort)
+    C17.limits_wiring(prog, chk)  # the limits the termination argument rests on are the ones the front-ends configure
 
 
 def utf8_boundary(prog, chk):
